@@ -235,7 +235,7 @@ def run_lines(exe, lines, timeout=3000, shards=None, args=None):
     """Feed case lines to exe (sharded over cores), return result lines in order."""
     if not lines:
         return []
-    shards = shards or min(NPROC, max(1, len(lines) // 200))
+    shards = shards or min(NPROC, max(1, len(lines) // 8))
     chunks = [lines[i::shards] for i in range(shards)]
     procs = []
     for ch in chunks:
